@@ -158,6 +158,12 @@ MARKER_TARGETS_C12 = [f"{q}{m}" for q in ("dep_logic.markers.single:SingleMarker
                                           "dep_logic.markers.any:AnyMarker.", "dep_logic.markers.empty:EmptyMarker.") for m in ("exclude", "only", "without_extras")]
 
 
+ATOM_TARGETS = ["dep_logic.utils:OrderedSet.__init__"] + [f"dep_logic.markers.single:{c}.{m}" for c in ("EqualityMarkerUnion", "InequalityMultiMarker")
+                                                          for m in ("replace", "__and__", "__or__")] + \
+    ["dep_logic.markers.single:_merge_single_markers", "dep_logic.markers.single:MarkerExpression.__and__", "dep_logic.markers.single:MarkerExpression.__or__",
+     "dep_logic.markers.single:MarkerExpression._evaluate"]
+
+
 class MarkerPlan(Plan):
     """C02 / C12: combinator layer over abstract markers (T-MARK) + the bounded sweep on the real objects"""
     level = "other"
@@ -171,19 +177,25 @@ class MarkerPlan(Plan):
     def __init__(self, pid):
         self.pid = pid
         self.level = "proof" if pid == "C12" else "other"
+        if pid == "C15":
+            self.explanation = ("proof part: the atom-layer operators (groups of ==/!= atoms, merging of two string atoms) never return an atom group with fewer than two values; "
+                                "bounded part: the normal-form predicate on every parse/&/|/only/exclude result of the marker sweep. The fix-point clause of of() (no neutral child, >= 2 children) is not "
+                                "expressible as an inductive invariant (DESIGN section 5, C15) and is covered by the bounded part only.")
         self.explanation = ("proof part: every path-VC of the listed combinator functions is discharged for all markers / all list lengths / all environments (pointwise ghosts); "
                             "bounded part: the same meaning contract evaluated on real markers from the atom pool (covers the assumed atom layer). The two together are reported, the bounded part never counted as proved.")
 
     def stages(self, tier, nproc):
         named, functions, crashes, notes = {}, {}, [], []
         tmo = 20000 if tier == "quick" else 120000
-        targets = MARKER_TARGETS_C02 + MARKER_TARGETS_C12
+        targets = [] if self.pid == "C15" else MARKER_TARGETS_C02 + MARKER_TARGETS_C12
         heavy = {"dep_logic.utils:flatten_items": 12, "dep_logic.markers.multi:MultiMarker.of": 6, "dep_logic.markers.union:MarkerUnion.of": 6, "dep_logic.utils:union": 3}
         jobs = []
         for t in targets:
             n = heavy.get(t, 1)
             for k in range(n):
                 jobs.append((f"{t}[{k}/{n}]", "marker_function", {"name": t, "timeout_ms": tmo, "vc_slice": (k, n) if n > 1 else None}))
+        if self.pid in ("C02", "C15"):
+            jobs += [(t, "atom_function", {"name": t, "timeout_ms": tmo}) for t in ATOM_TARGETS]
         jobs.sort(key=lambda j: -heavy.get(j[2]["name"], 1))
         _merge(common.run_jobs(jobs, nproc), named, functions, crashes)
         return named, functions, crashes, notes
@@ -191,7 +203,9 @@ class MarkerPlan(Plan):
     def own(self, name):
         if self.pid == "C12":
             return "C12." in name or any(t + "#" in name for t in MARKER_TARGETS_C12)
-        return not ("C12." in name) and any(name.startswith(t + "#") for t in MARKER_TARGETS_C02)
+        if self.pid == "C15":
+            return "C15." in name
+        return not ("C12." in name) and not ("C15." in name) and any(name.startswith(t + "#") for t in MARKER_TARGETS_C02 + ATOM_TARGETS)
 
     def own_rtc(self, check):
         return check.startswith(self.pid + ".")
@@ -227,7 +241,7 @@ def get_plan(pid):
                         rtc=["generic_spec"], replay=_c19_replay,
                         technique="contracts on GenericSpecifier.__and__/__or__/__invert__/__contains__/__post_init__ and Empty/Any.__contains__; VCs from the real AST over SMT strings (z3 seq, cvc5 fallback)",
                         trusted_base=["A-ENGINE", "A-STDLIB: Python `s in t` on str is substring containment, str ordering is code-point lexicographic (= SMT-LIB str.<)", "A-TERM"])
-    if pid in ("C02", "C12"):
+    if pid in ("C02", "C12", "C15"):
         return MarkerPlan(pid)
     if pid == "C14":
         jobs = [(f"C14.spec.{k}", "spec_c14", {"chunk": (k, 5)}) for k in range(5)] + [("C14.lemmas", "spec_lemmas", {}), ("C14.markers", "marker_c14", {})]
